@@ -91,6 +91,8 @@ func reachMode(t *testing.T, rec *Recorder) {
 		switch sc.Mode {
 		case "small", "wide":
 			reachInts(t, rec, r, &sc)
+		case "floats":
+			reachFloats(rec, r, &sc)
 		case "edge":
 			edgeHits(rec, r, &sc)
 		case "fresh":
@@ -242,6 +244,53 @@ func reachInts(t *testing.T, rec *Recorder, r *Runner, sc *ReachScenario) {
 	}
 	rec.Emit("reach", F{"gen": sc.Gen.K, "min": sc.Gen.Min, "max": sc.Gen.Max, "want": len(want), "missing": missing, "calls": calls,
 		"structuredMissing": structuredMissing, "fallbackDraws": tried})
+}
+
+// reachFloats: a float range of a few dozen adjacent values (the harness enumerates them with Nextafter): every one of them can be drawn.
+func reachFloats(rec *Recorder, r *Runner, sc *ReachScenario) {
+	b := (&GenEnv{cache: map[*GenSpec]*Built{}, run: r}).Build(sc.Gen)
+	is32 := strings.HasPrefix(sc.Gen.K, "Float32")
+	lo, hi := parseFloat(sc.Gen.Min), parseFloat(sc.Gen.Max)
+	key := func(f float64) string {
+		if is32 {
+			return fmt.Sprintf("%08x", math.Float32bits(float32(f)))
+		}
+		return fmt.Sprintf("%016x", math.Float64bits(f))
+	}
+	want := []string{}
+	for f, n := lo, 0; n < 4096; n++ {
+		want = append(want, key(f))
+		if f >= hi {
+			break
+		}
+		if is32 {
+			f = float64(math.Nextafter32(float32(f), float32(math.Inf(1))))
+		} else {
+			f = math.Nextafter(f, math.Inf(1))
+		}
+	}
+	reached := map[string]bool{}
+	rec.Pause()
+	tried := 0
+	for i := 0; i < sc.Fallback && len(reached) < len(want); i++ {
+		tried++
+		v := b.G.Example(i)
+		switch x := v.(type) {
+		case float64:
+			reached[key(x)] = true
+		case float32:
+			reached[key(float64(x))] = true
+		}
+	}
+	rec.Resume()
+	missing := []string{}
+	for _, w := range want {
+		if !reached[w] && len(missing) < 20 {
+			missing = append(missing, w)
+		}
+	}
+	rec.Emit("reach", F{"gen": sc.Gen.K, "min": sc.Gen.Min, "max": sc.Gen.Max, "want": len(want), "missing": missing, "calls": 0,
+		"structuredMissing": len(missing), "fallbackDraws": tried})
 }
 
 func edgeHits(rec *Recorder, r *Runner, sc *ReachScenario) {
